@@ -450,7 +450,7 @@ def run(F, rep):
         raise AnalysisBroken('C09.Q1: comparisons of two owner lookups: %d found, 5 confirmed' % n_q)
 
     # ------------------------------------------------------------------ I2: positions computed from an index
-    rep.rule('C09.I2', 'an insertion into a child container at begin() + index, made after calls that can remove elements from that container (the replaced child, and the new child when it was already listed here), '
+    rep.rule('C09.I3', 'an insertion into a child container at begin() + index, made after calls that can remove elements from that container (the replaced child, and the new child when it was already listed here), '
                        're-bounds the index first (index = min(index, size)): otherwise the position lies beyond end()')
     from faillog import _can_reach as _cri
     n_i2 = 0
@@ -482,11 +482,11 @@ def run(F, rep):
             clamps = [a for a in f.walk() if ((a.get('k') == 'Bin' and a.get('op') == '=') or (a.get('k') == 'Call' and a.get('opc') == '=')) and a['c'][0].get('k') == 'Ref' and a['c'][0].get('d') == d
                       and any(x.get('k') == 'Call' and (x.get('callee') or '') in ('std::min',) for x in walk(a['c'][1])) and cont + '.size()' in render(a['c'][1]) and cfg.node_dominates(a, n)]
             late = [r for r in removers if not any(_cri(cfg, r, cl) for cl in clamps)]
-            rep.check(not removers or (bool(clamps) and not late), 'C09.I2', '%s/%d|%s.insert' % (f.short, len(f.params), cont), f.where(n),
+            rep.check(not removers or (bool(clamps) and not late), 'C09.I3', '%s/%d|%s.insert' % (f.short, len(f.params), cont), f.where(n),
                       '%s inserts at begin() + %s after %d call(s) that can remove elements from %s (%s) without re-bounding the index: when the replacement was already a child at a lower index the position is past the end' % (f.short, idx[0]['n'], len(removers), cont, ', '.join(sorted({render(r)[:30] for r in removers}))),
                       'index clamped to size() after the removals')
     if n_i2 < 1:
-        raise AnalysisBroken('C09.I2: positional insertions into child containers: %d found, 2 confirmed' % n_i2)
+        raise AnalysisBroken('C09.I3: positional insertions into child containers: %d found, 2 confirmed' % n_i2)
 
     from engines import rule_take_while
     rule_take_while(F, rep, 'C09.T1', lambda g: '/src/' in g.file, 'the library')
